@@ -14,7 +14,8 @@
      factory, bytes 8..11 the little-endian u32 participant instance number `inst`, bytes 12..15 the entity id.
    * Vec = list in storage order; `find`/`position` = first match.
    * counters are Z with their Rust widths; `+= 1` at the maximum panics in the Debug profile and wraps in Release;
-     the ghost flag pa_ovf / f_ovf records that this happened.
+     the ghost flag pa_ovf / f_ovf records that this happened (the state after a panic only keeps that flag
+     meaningful: the worker task is dead).
    * topic names are Z: n >= 0 is the topic name "t<n>", n < 0 the content-filtered-topic name "c<-n-1>"; built-in
      topic names are never used by the harness and are not modelled.
    * QoS: one record for topic / writer / reader QoS (slots a kind does not have keep a constant), one for
@@ -47,10 +48,10 @@ Definition KIND_READER_WITH_KEY : Z := 7.
 (* ------------------------------------------------------------------ counters *)
 Inductive profile : Type := Debug | Release.
 
-(* `c += 1` on an unsigned counter whose largest value is maxv: (new value, overflowed) or a panic *)
-Definition bump (pr : profile) (maxv c : Z) : option (Z * bool) :=
-  if c <? maxv then Some (c + 1, false)
-  else match pr with Debug => None | Release => Some (0, true) end.
+(* `c += 1` on an unsigned counter whose largest value is maxv: (new value, overflowed).  The Release build
+   continues with the wrapped value; the Debug build (overflow checks) panics. *)
+Definition bump (maxv c : Z) : Z * bool := if c <? maxv then (c + 1, false) else (0, true).
+Definition panics (pr : profile) (cv : Z * bool) : bool := match pr with Debug => snd cv | Release => false end.
 
 (* ------------------------------------------------------------------ QoS *)
 Record eqos : Type := mkEQ {
@@ -324,13 +325,12 @@ Definition is_cft (n : Z) (c : cft) : bool := c_name c =? n.
 Definition create_group (pr : profile) (sd : side) (p : part) (q : option gqos) : part * ret :=
   let qos := match q with None => defgq sd p | Some x => x end in
   let h := child_handle (pa_h p) (gcounter sd p) 0 0 (group_kind sd) in
-  match bump pr 255 (gcounter sd p) with
-  | None => (p, RPanic)
-  | Some cv =>
-      let p1 := set_gcounter sd p cv in
-      let g := mkGr h (pa_en p && p_auto (pa_q p)) qos (default_eqos (ekind_of sd)) [] in
-      (set_groups sd p1 (groups sd p1 ++ [g]), RHandle h)
-  end.
+  let cv := bump 255 (gcounter sd p) in
+  let p1 := set_gcounter sd p cv in
+  if panics pr cv then (p1, RPanic)
+  else
+    let g := mkGr h (pa_en p && p_auto (pa_q p)) qos (default_eqos (ekind_of sd)) [] in
+    (set_groups sd p1 (groups sd p1 ++ [g]), RHandle h).
 
 (* delete_user_defined_publisher / _subscriber  (participant_methods.rs:99, :188) *)
 Definition delete_group (sd : side) (p : part) (parent gh : handle) : part * ret :=
@@ -355,18 +355,17 @@ Definition create_topic (pr : profile) (p : part) (name : Z) (q : option eqos) :
   else
     let qos := match q with None => pa_deftopic p | Some x => x end in
     let h := child_handle (pa_h p) 0 (lo8 (pa_tc p)) (hi8 (pa_tc p)) KIND_TOPIC in
-    match bump pr 65535 (pa_tc p) with
-    | None => (p, RPanic)
-    | Some cv =>
-        let p1 := set_tcounter p cv in
-        let p2 := set_topics p1 (pa_topics p1 ++ [mkTp h name false qos]) in
-        if pa_en p && p_auto (pa_q p) then
-          match enable_topic p2 name with
-          | (p3, RUnit) => (p3, RHandle h)
-          | (p3, r) => (p3, r)
-          end
-        else (p2, RHandle h)
-    end.
+    let cv := bump 65535 (pa_tc p) in
+    let p1 := set_tcounter p cv in
+    if panics pr cv then (p1, RPanic)
+    else
+      let p2 := set_topics p1 (pa_topics p1 ++ [mkTp h name false qos]) in
+      if pa_en p && p_auto (pa_q p) then
+        match enable_topic p2 name with
+        | (p3, RUnit) => (p3, RHandle h)
+        | (p3, r) => (p3, r)
+        end
+      else (p2, RHandle h).
 
 Definition uses_topic (name : Z) (g : group) : bool := existsb (fun e => e_topic e =? name) (g_eps g).
 
@@ -385,12 +384,11 @@ Definition delete_topic (p : part) (parent : handle) (name : Z) : part * ret :=
    the async layer *)
 Definition create_cft (pr : profile) (p : part) (name related : Z) : part * ret :=
   if negb (existsb (is_topic related) (pa_topics p)) then (p, RErr E_PRECONDITION)
-  else match bump pr 65535 (pa_tc p) with
-       | None => (p, RPanic)
-       | Some cv =>
-           let p1 := set_tcounter p cv in
-           (set_cfts p1 (pa_cfts p1 ++ [mkCft name related]), RUnit)
-       end.
+  else
+    let cv := bump 65535 (pa_tc p) in
+    let p1 := set_tcounter p cv in
+    if panics pr cv then (p1, RPanic)
+    else (set_cfts p1 (pa_cfts p1 ++ [mkCft name related]), RUnit).
 (* delete_content_filtered_topic (participant_methods.rs:408): Ok(()) and nothing else *)
 Definition delete_cft (p : part) (name : Z) : part * ret := (p, RUnit).
 
@@ -427,25 +425,19 @@ Definition create_endpoint (pr : profile) (sd : side) (p : part) (gh : handle) (
                       | None => Some (g_defq g)
                       | Some x => if is_consistent (ekind_of sd) x then Some x else None
                       end in
+          let cv := bump 65535 c in
+          let p1 := set_ecounter sd p cv in
           match sd with
           | SPub =>
-              match bump pr 65535 c with
-              | None => (p, RPanic)
-              | Some cv =>
-                  let p1 := set_ecounter sd p cv in
-                  match qchk with
-                  | None => (p1, RErr E_INCONSISTENT)
-                  | Some qos => push_endpoint sd p1 g h name qos
-                  end
-              end
+              if panics pr cv then (p1, RPanic)
+              else match qchk with
+                   | None => (p1, RErr E_INCONSISTENT)
+                   | Some qos => push_endpoint sd p1 g h name qos
+                   end
           | SSub =>
               match qchk with
               | None => (p, RErr E_INCONSISTENT)
-              | Some qos =>
-                  match bump pr 65535 c with
-                  | None => (p, RPanic)
-                  | Some cv => push_endpoint sd (set_ecounter sd p cv) g h name qos
-                  end
+              | Some qos => if panics pr cv then (p1, RPanic) else push_endpoint sd p1 g h name qos
               end
           end
       end
